@@ -41,13 +41,15 @@ AREAS["C05"] = {
     "area": "c05", "id": 5, "coq": ["Base", "Store", "Properties/C05.v"], "rule": STORE_RULE, "trusted": STORE_TRUSTED, "assumptions": STORE_ASSUME,
     "level_text": "proof: in the model every request of a refused class is answered with an error, an error reply leaves state and rebroadcast stream untouched, reachable graphs stay acyclic "
                   "so the upward recursions terminate; replies, dumps and up.> traffic of a real instance are compared with the model after every request and the refusal/no-trace specification is evaluated on them",
-    "level_note": "trusted as C01; a request that kills or wedges the instance is observed through worker processes with timeouts",
+    "level_note": "trusted as C01; a request that kills or wedges the instance is observed through worker processes with timeouts; 'keeps answering' is evaluated as: every request is answered, "
+                  "and a node-point request that was accepted before is accepted again when re-sent after a refusal and at the end of every script (C05_node_points_accepted is the model fact)",
 }
 AREAS["C06"] = {
     "area": "c06", "id": 6, "coq": ["Base", "Store", "Properties/C06.v"], "rule": STORE_RULE, "trusted": STORE_TRUSTED, "assumptions": STORE_ASSUME,
     "level_text": "proof: the set of subjects the recursive publishers of the model publish on is exactly the reflexive-transitive upward closure (live edges for node points, all edges for edge points) "
                   "for every acyclic graph; everything a real instance publishes on up.> is compared with the model and with the closure computed from the dump",
-    "level_note": "trusted as C01; NATS delivery order per connection is assumed to collect the messages published before a reply",
+    "level_note": "trusted as C01; NATS delivery order per connection is assumed to collect the messages published before a reply; the closure the checker computes from a dump is proved to be "
+                  "the walk set of the theorems (C06_spec_is_closure)",
 }
 
 AREAS["C13"] = {
